@@ -14,8 +14,8 @@ class InjectedFault(Exception):
     """Raised by a probe to emulate an interruption at a chosen call index."""
 
 
-class InjectedInterrupt(BaseException):
-    """An interruption that is not an Exception subclass (as Ctrl-C or SystemExit are not)."""
+class InjectedInterrupt(KeyboardInterrupt):
+    """An interruption that is not an Exception subclass: a Ctrl-C arriving inside the user's callable."""
 
 
 def to_np(a):
@@ -52,8 +52,9 @@ class Probe:
     likelihood / prior call index and arbitrary `on_call` observers (file probes).
     """
 
-    def __init__(self, target: Target, fault_like_at=None, fault_prior_at=None, recipe=False, record_x=False, cut_below=None, fault_exc=InjectedFault):
+    def __init__(self, target: Target, fault_like_at=None, fault_prior_at=None, recipe=False, record_x=False, cut_below=None, fault_exc=InjectedFault, prior_nan_outside=False):
         self.fault_exc = fault_exc
+        self.prior_nan_outside = prior_nan_outside
         self.t = target
         # hard cut: the likelihood is exactly zero (log L = -inf) for x0 < cut_below, inside the prior support
         self.cut_below = cut_below
@@ -84,7 +85,14 @@ class Probe:
         if self.fault_prior_at is not None and k == self.fault_prior_at:
             raise self.fault_exc(f"prior call {k}")
         self.events.append(("P", int(samples.x.shape[0])))
-        return self.t.log_prior_x(samples.x)
+        lp = self.t.log_prior_x(samples.x)
+        if self.prior_nan_outside:
+            # a prior written without an explicit support test (log of a negative number, ...): NaN instead of -inf outside
+            from array_api_compat import array_namespace
+
+            xp = array_namespace(lp)
+            lp = xp.where(xp.isfinite(lp), lp, xp.asarray(math.nan, dtype=lp.dtype))
+        return lp
 
     def log_likelihood(self, samples):
         k = self.n_like_calls
